@@ -28,6 +28,7 @@ def jStore (dt : Data) (α : Rat) (s : Store) : Json :=
     ("nodeIdxRev", Json.arr (s.nodeIdxRev.map fun (i, n) => Json.arr #[jNat i, jIntS n]).toArray),
     ("data", Json.arr (s.data.map fun (n, l) => Json.arr #[jIntS n, jNats l]).toArray),
     ("last", match s.last with | some n => jIntS n | none => Json.null),
+    ("dictEdges", Json.arr (s.toDict.edges.map fun (a, b) => Json.arr #[jNat a, jNat b]).toArray),
     ("wf", Json.bool s.wfB),
     ("cacheOK", Json.bool (s.cacheOKB dt)),
     ("pOne", jRat (s.pOneC dt α)),
